@@ -531,8 +531,229 @@ def search(rec, cfg, K, D, reduced, state_cap):
     return total_states, depth
 
 
+# ------------------------------------------------------------------ public clients
+# The BFS above drives the `_fast` split API. The blocking receive loop of the sync client (one Rust call that
+# skips datagrams until the deadline) and the reader loop of the asyncio client are different code in front of
+# the same matching rules, so the same faults are also enumerated through both public clients: K consecutive
+# get() calls; the agent answers request k with a scripted list of datagrams (genuine reply, nothing, an extra
+# copy, a late copy of an earlier reply, one rewritten datagram before or after the genuine one).
+
+PUB_MUTS_COMMUNITY = ["rid+1", "rid+2^32", "rid=r*", "comm-case", "comm+256", "version-other", "trunc-1", "trunc-all", "req+rid+1"]
+PUB_MUTS_V3 = ["rid+1", "rid=r*", "msgid+1", "msgid=r*", "user-other", "engine-longer", "trunc-1", "trunc-all", "report", "report+msgid=r*"]
+
+
+def pub_scripts(cfg, K, D, bases="one-drop"):
+    """All scripts (list per request of descriptors) with at most D extra datagrams."""
+    muts = PUB_MUTS_V3 if cfg.version == "v3" else PUB_MUTS_COMMUNITY
+    if bases == "one-drop":
+        base_sets = [tuple(True for _ in range(K))] + [tuple(j != i for j in range(K)) for i in range(K)]
+    else:
+        import itertools
+
+        base_sets = list(itertools.product((True, False), repeat=K))
+
+    def extras(k):
+        out = [(k, 1, None)]
+        out += [(j, 1, None) for j in range(1, k)]
+        for m in muts:
+            if m.endswith("=r*"):
+                out += [(k, 0, m[:-1] + str(j)) for j in range(1, k)]
+            else:
+                out.append((k, 0, m))
+        return out
+
+    def place_from(script, d_left, k0, pos0):
+        yield [list(x) for x in script]
+        if d_left == 0:
+            return
+        for k in range(k0, K + 1):
+            cur = script[k - 1]
+            for pos in range(pos0 if k == k0 else 0, len(cur) + 1):
+                for e in extras(k):
+                    nxt = [list(x) for x in script]
+                    nxt[k - 1] = cur[:pos] + [e] + cur[pos:]
+                    yield from place_from(nxt, d_left - 1, k, pos + 1)
+
+    seen = set()
+    for base in base_sets:
+        script = [[(k, 0, None)] if base[k - 1] else [] for k in range(1, K + 1)]
+        for sc in place_from(script, D, 1, 0):
+            key = repr(sc)
+            if key not in seen:
+                seen.add(key)
+                yield sc
+
+
+class PubExec(Exec):
+    """Exec's datagram builder / classifier without the split world."""
+
+    def __init__(self, cfg):  # noqa: super().__init__ opens a SplitWorld, not wanted here
+        self.cfg = cfg
+        self.reqs = {}
+        self.sent = 0
+
+
+def pub_observed(out):
+    mod, fast = drivers.subject()
+    if out.kind == "ok":
+        v = out.value
+        if isinstance(v, int) and not isinstance(v, bool):
+            return ("value", (v // 10, v % 10))
+        return ("value", repr(v))
+    if isinstance(out.exc, TimeoutError):
+        return ("blocked",)
+    if isinstance(out.exc, fast.SnmpDecodeError):
+        return ("decode-error",)
+    if isinstance(out.exc, fast.SnmpAuthError):
+        return ("auth-error",)
+    return ("exception", out.exc_name, str(out.exc)[:80])
+
+
+def pub_execute(cfg, driver, script, tmo):
+    """Run the K get() calls. Returns (observed list, expected list of sets, n_requests, agent errors)."""
+    K = len(script)
+    ex = PubExec(cfg)
+    script = [[_tup(d) for d in lst] for lst in script]
+
+    def responder(data, idx):
+        k = idx + 1
+        if k > K:
+            return []
+        ex.reqs[k] = drivers.open_request(cfg, data, strict=False, check_mac=False)
+        return [ex.datagram(d) for d in script[k - 1]]
+
+    outs = []
+    if driver == "sync":
+        w = drivers.SyncWorld(cfg, responder, timeout=tmo)
+        try:
+            for k in range(1, K + 1):
+                outs.append(drivers.call(w.session.get, rb.oid_str(OID + (k,))))
+            import time as _t
+
+            _t.sleep(0.01)
+            errs, nreq = list(w.errors), len(w.requests)
+        finally:
+            w.close()
+    else:
+
+        async def client(session):
+            res = []
+            for k in range(1, K + 1):
+                try:
+                    res.append(drivers.Outcome("ok", await session.get(rb.oid_str(OID + (k,)))))
+                except Exception as e:  # noqa: BLE001
+                    res.append(drivers.Outcome("exc", exc=e))
+            return res
+
+        out, reqs, errs = drivers.run_async(cfg, responder, client, timeout=tmo)
+        if out.kind != "ok":
+            outs = [out] * K
+        else:
+            outs = out.value
+        nreq = len(reqs)
+    observed = [pub_observed(o) for o in outs]
+    # reference: scan what the client socket holds, with the ids actually on the wire; a client that empties its
+    # socket before a new request is equally correct, so both readings are acceptable
+    expected = []
+    leftover = []
+    if all(k in ex.reqs for k in range(1, K + 1)):
+        for k in range(1, K + 1):
+            ex.sent = k
+            alts = set()
+            for queue, track in ((leftover + script[k - 1], True), (list(script[k - 1]), False)):
+                exp = ("blocked",)
+                consumed = 0
+                for d in queue:
+                    consumed += 1
+                    c = ex.concrete_class(d)
+                    if c == "skip":
+                        continue
+                    exp = {"match": ("value", (d[0], d[1])), "undecodable": ("decode-error",), "report": ("auth-error",)}[c]
+                    break
+                alts.add(exp)
+                if track:
+                    nxt_left = queue[consumed:]
+            leftover = nxt_left
+            expected.append(alts)
+    return observed, expected, nreq, errs
+
+
+def pub_case_holds(case, tmo):
+    cfg = Cfg.from_desc(case["cfg"])
+    observed, expected, nreq, errs = pub_execute(cfg, case["driver"], case["script"], tmo)
+    if errs:
+        raise drivers.MachineryError("agent error: %s" % errs[:2])
+    K = len(case["script"])
+    if nreq != K or len(expected) != K:
+        return False, observed, expected, "the %d get() calls put %d requests on the wire" % (K, nreq)
+    for k in range(K):
+        if observed[k] not in expected[k]:
+            return False, observed, expected, "call %d produced %r, reference model allows %r" % (k + 1, observed[k], sorted(expected[k]))
+    return True, observed, expected, ""
+
+
+def _fmt_script(script):
+    return " | ".join(
+        ",".join("r%d%s%s" % (d[0], "'" if d[1] else "", ("[" + d[2] + "]") if d[2] else "") for d in lst) or "-" for lst in script
+    )
+
+
+def pub_work(chunk):
+    res = common.Result()
+    for case in chunk:
+        ok, observed, expected, why = pub_case_holds(case, 0.08)
+        res.count("public_scripts")
+        res.count("public_calls", len(case["script"]))
+        for o in observed:
+            res.outcome("public:" + o[0])
+        if not ok:
+            # real timers: repeat twice with a generous time-out before judging
+            again = [pub_case_holds(case, 0.6) for _ in range(2)]
+            if any(a[0] for a in again):
+                res.count("public_retried_ok")
+                continue
+            cfg = Cfg.from_desc(case["cfg"])
+            k = next((i for i in range(len(observed)) if i >= len(expected) or observed[i] not in expected[i]), 0)
+            sig = "public-%s/%s/call%d after [%s] -> %s" % (
+                case["driver"],
+                cfg.name,
+                k + 1,
+                _fmt_script(case["script"]),
+                observed[k][0] if observed[k][0] != "value" else "value%r" % (observed[k][1],),
+            )
+            res.violation(sig, "%s client, agent script %s: %s" % (case["driver"], _fmt_script(case["script"]), again[-1][3] or why), case)
+        elif len(res["samples"]) < 1 and sum(len(x) for x in case["script"]) > len(case["script"]):
+            res.sample({"driver": case["driver"], "script": _fmt_script(case["script"]), "observed": observed})
+    return res
+
+
+def pub_cases(tier):
+    if tier == "quick":
+        plan = [
+            ("sync", Cfg("v2c"), 3, 1),
+            ("sync", Cfg("v3", auth=2, priv=2), 3, 1),
+            ("async", Cfg("v1"), 3, 1),
+            ("async", Cfg("v3"), 3, 1),
+        ]
+    else:
+        plan = []
+        for drv in ("sync", "async"):
+            for cfg in (Cfg("v1"), Cfg("v2c"), Cfg("v3"), Cfg("v3", auth=2, priv=2), Cfg("v3", auth=1, priv=1)):
+                plan.append((drv, cfg, 3, 1))
+            plan.append((drv, Cfg("v2c"), 3, 2))
+            plan.append((drv, Cfg("v3", auth=2, priv=2), 2, 2))
+            plan.append((drv, Cfg("v2c"), 4, 1))
+    for drv, cfg, K, D in plan:
+        desc = cfg.describe()
+        for sc in pub_scripts(cfg, K, D):
+            yield {"public": True, "driver": drv, "cfg": desc, "script": sc, "class": "public-%s/%s" % (drv, cfg.name)}
+
+
 def replay(case):
     common.prepare_stage()
+    if case.get("public"):
+        ok, observed, expected, why = pub_case_holds(case, 0.6)
+        return {"script": _fmt_script(case["script"]), "observed": observed, "expected": [sorted(e) for e in expected], "holds": ok, "why": why}
     cfg = Cfg.from_desc(case["cfg"])
     hist = [_tup(a) for a in case["history"]]
     act = _tup(case["act"])
@@ -589,10 +810,19 @@ def run(tier):
             {"config": cfg.name, "requests": K, "deviations": D, "alphabet": "reduced" if reduced else "full", "states": n, "depth": depth}
         )
     rec.extra["bounds_completed"] = bounds
+    pcases = list(pub_cases(tier))
+    common.run_cases(rec, pub_work, pcases, chunk=12, nproc=48, timeout=600, case_timeout=60)
+    rec.extra["public_client_scripts"] = {
+        "scripts": rec.counters.get("public_scripts", 0),
+        "calls": rec.counters.get("public_calls", 0),
+        "repeated_because_of_a_real_timer": rec.counters.get("public_retried_ok", 0),
+        "bound": "K = 3 get() calls, at most 1 extra datagram per script (thorough: 2, and K = 4), replies to at most one request dropped",
+    }
+    pub_calls = rec.counters.get("public_calls", 0)
     return rec.finish(
-        evaluations=rec.counters["impl_executions"],
+        evaluations=rec.counters["impl_executions"] + pub_calls,
         distinct_nontrivial=states,
         states=states,
-        transitions=rec.counters["transitions"],
-        traces=rec.counters["impl_executions"],
+        transitions=rec.counters["transitions"] + pub_calls,
+        traces=rec.counters["impl_executions"] + rec.counters.get("public_scripts", 0),
     )
